@@ -85,6 +85,8 @@ type FnCtx struct {
 
 type Frame struct {
 	fc       *FnCtx
+	hintCallRes []SV // results of the call a `hint after` is attached to (bound as callresult, callresult<i>)
+	noPanicOld string // ext_nopanic.go: the `nopanic when` condition of the root function, evaluated in the entry state ("" = none)
 	fn       *ssa.Function
 	spec     *FuncSpec
 	prefix   string
@@ -987,6 +989,15 @@ func (fr *Frame) localsBefore(in ssa.Instruction) map[string]func(*State) SV {
 		for _, x := range b.Instrs {
 			if x == in {
 				break
+			}
+			if phi, isPhi := x.(*ssa.Phi); isPhi {
+				// a named phi of a dominating block (a variable assigned on several paths, e.g. `fresh` after an if/else or at a
+				// loop exit) IS the variable's value from here on: it overrides the debug refs of the assignments that flow into it
+				if sv, known := fr.vals[phi]; known && phi.Comment != "" && !strings.HasPrefix(phi.Comment, "range") {
+					v := sv
+					out[phi.Comment] = func(*State) SV { return v }
+				}
+				continue
 			}
 			d, ok := x.(*ssa.DebugRef)
 			if !ok {
